@@ -35,6 +35,20 @@ IO = "dask/dataframe/dask_expr/io/io.py"
 ME = "dask/dataframe/methods.py"
 
 
+def division_location(ctx):
+    """PAIR.division-location (also used by C44: from_pandas cut points feed repartition)."""
+    # ---------------- sorted_division_locations: a division value and its location are read off the SAME position
+    sdl = ctx.model.module("dask/dataframe/io/io.py").func("sorted_division_locations")
+    dup = [n for n in ast.walk(sdl) if isinstance(n, ast.If) and eqv(n.test, "duplicates") and any(isinstance(s, ast.Assign) and eqv(s, "pos = int(offsets[ind])") for s in n.body)]
+    ok = len(dup) == 1
+    if ok:
+        body = dup[0].body
+        ipos = [k for k, s in enumerate(body) if isinstance(s, ast.Assign) and eqv(s, "pos = int(offsets[ind])")][0]
+        later = [s for s in body[ipos + 1:] for n in ast.walk(s) if isinstance(n, ast.Name) and isinstance(n.ctx, ast.Store) and n.id in ("ind", "div", "i")]
+        ok = not later and eqv(dup[0].orelse[0], "pos = i") if dup[0].orelse else False
+    ctx.ob("PAIR.division-location", sdl, "pos = int(offsets[ind]) is taken after every adjustment of ind/div in that step (else: pos = i)", ok, "" if ok else "the division value comes from the stepped-back position but the cut stays at the over-stepped one: rows at or above a division land in the preceding partition")
+
+
 def check(ctx):
     model = ctx.model
     expr = model.klass(EX, "Expr")
@@ -106,16 +120,7 @@ def check(ctx):
                 got = set(ast.literal_eval(c_[len("self.how in "):]))
         ok = flag in conj and single in conj and got == hows
         ctx.ob("ALG.merge-divisions", r, f"BlockwiseMerge reports {u} only when {flag}, {single} and how in {sorted(hows)}", ok, "" if ok else f"condition is {conj}: for other join kinds the result also holds rows of the single-partition side that lie outside these divisions")
-    # ---------------- sorted_division_locations: a division value and its location are read off the SAME position
-    sdl = ctx.model.module("dask/dataframe/io/io.py").func("sorted_division_locations")
-    dup = [n for n in ast.walk(sdl) if isinstance(n, ast.If) and eqv(n.test, "duplicates") and any(isinstance(s, ast.Assign) and eqv(s, "pos = int(offsets[ind])") for s in n.body)]
-    ok = len(dup) == 1
-    if ok:
-        body = dup[0].body
-        ipos = [k for k, s in enumerate(body) if isinstance(s, ast.Assign) and eqv(s, "pos = int(offsets[ind])")][0]
-        later = [s for s in body[ipos + 1:] for n in ast.walk(s) if isinstance(n, ast.Name) and isinstance(n.ctx, ast.Store) and n.id in ("ind", "div", "i")]
-        ok = not later and eqv(dup[0].orelse[0], "pos = i") if dup[0].orelse else False
-    ctx.ob("PAIR.division-location", sdl, "pos = int(offsets[ind]) is taken after every adjustment of ind/div in that step (else: pos = i)", ok, "" if ok else "the division value comes from the stepped-back position but the cut stays at the over-stepped one: rows at or above a division land in the preceding partition")
+    division_location(ctx)
 
 
 VARIANTS = [
